@@ -33,6 +33,20 @@ pub fn run(ctx: &mut Ctx) {
             run_history(ctx, &cfg, &ops, &c2);
         });
     }
+    // ---- regime wide: the same histories in a manager of up to 200 variables: the history's own
+    // variables are spread over the labels (64/128 boundaries included), the rest are unused
+    for case in ctx.cases("wide", 400, true) {
+        let c2 = checks.clone();
+        ctx.run_case("wide", case, move |ctx, rng| {
+            let hostile = rng.chance(1, 2);
+            let mut cfg = random_cfg(rng, 6, hostile);
+            cfg.nops = rng.range(5, 80);
+            let ops = gen_history(&cfg, rng);
+            let _g = crate::gen::LabelMapGuard::new(crate::gen::random_label_map(cfg.n0, rng));
+            ctx.count("histories_over_spread_labels", 1);
+            run_history(ctx, &cfg, &ops, &c2);
+        });
+    }
     // ---- regime long: few long hostile histories, n <= 10, tiny tables
     for case in ctx.cases("long", 16, true) {
         let c2 = checks.clone();
